@@ -118,7 +118,10 @@ def expectations(root):
             continue
         d = o.__dict__
         dep = d.get("_dependency")
-        par = d.get("_parent")
+        # the Section that holds the Property (found among the validated objects, not through the Property's own
+        # parent reference; that reference only counts for a Property validated on its own)
+        holders = [h for h in objs if _k(h) == "sec" and any(q is o for q in _props(h))]
+        par = holders[0] if holders else d.get("_parent")
         if dep is None or par is None:
             continue
         sibs = [p for p in _props(par) if p.__dict__.get("_name") == dep]
